@@ -36,6 +36,12 @@ CRIT = [255, 256, 257, 511, 512, 513]
 FIELDS = ["center_x", "center_y", "base_degrees_per_tile", "rotation_deg", "offset_x", "offset_y", "tile_levels"]
 TOL = 1e-9
 PAR = ("topdown", "bottomup")
+# how "undefined" is encoded in the input files: NaN directly, or a blank value that the loader must turn into NaN
+# (int as the CLI parses it, float, exactly zero, a large exactly representable number)
+BLANKS = [None, 0, -999, None, 0.0, float(2 ** 100)]
+# how the sub-images reach the tiler: one file each (HDU guessed / HDU 0 named), several HDUs of one multi-extension
+# file (the same path listed once per HDU, HDU order unrelated to the collection order), or a mixture
+PACKS = ["files", "mef", "mixed", "files-idx"]
 # grid rotations whose matrix elements are exact: <<cos, sin>>
 EXACT_ROT = {"0": (1.0, 0.0), "90": (0.0, 1.0), "-90": (0.0, -1.0), "180": (-1.0, 0.0), "45": (0.5 ** 0.5, 0.5 ** 0.5)}
 
@@ -202,6 +208,7 @@ def real_cases(rng, quick):
                  crval=rng.choice([(10.0, 20.0), (283.25, -45.5), (0.5, 88.0)]),
                  dtype=rng.choice(["f4", "f4", "f8"]), seed=rng.randrange(1 << 30), tag=kw.pop("tag", "seeded"))
         c.update(kw)
+        c.setdefault("blank", BLANKS[len(cases) % len(BLANKS)])
         cases.append(c)
     # the critical sizes of C08, in pairs that reach 1, 2 and 4 tiles per axis
     crit_pairs = [(255, 256), (256, 256), (257, 255), (511, 300), (512, 513), (513, 511)] if quick else \
@@ -271,7 +278,8 @@ def variants(case, rng, quick):
             pars = ["topdown"] * n
         else:
             pars = [rng.choice(PAR) for _ in range(n)]
-        out.append(dict(perm=list(perm), pars=pars, fmt="npy" if i % 3 == 2 else "fits"))
+        out.append(dict(perm=list(perm), pars=pars, fmt="npy" if i % 3 == 2 else "fits",
+                        pack=PACKS[(i + case["seed"]) % len(PACKS)]))
     return out
 
 
@@ -302,6 +310,8 @@ def truth_array(case):
     for _ in range(6):
         y, x = int(g.integers(0, case["H"])), int(g.integers(0, case["W"]))
         a[y:y + 5, x:x + 7] = special[int(g.integers(0, len(special)))]
+    if case.get("blank") is not None:
+        a[a == case["blank"]] = 7.0          # the blank value itself cannot be data (for 0 that means both zeros)
     return a
 
 
@@ -323,6 +333,56 @@ def display_array(case, truth, k):
 
 
 def write_fits(path, disp, par, c1, c2, case):
+    make_hdu(disp, par, c1, c2, case, True).writeto(path, overwrite=True)
+
+
+def encode_blank(case, disp, sub_, i):
+    """The stored pixels of one input: undefined pixels as NaN, or - when the collection declares a blank value - as that
+    value (every other input keeps its hole as NaN: both encodings in one file)."""
+    import numpy as np
+    if case.get("blank") is None:
+        return disp
+    enc = disp.copy()
+    m = np.isnan(enc)
+    if i % 2:
+        m[sub_["hy0"]:sub_["hy1"], sub_["hx0"]:sub_["hx1"]] = False
+    enc[m] = case["blank"]
+    return enc
+
+
+def write_inputs(wd, case, var, rec, disps, plain=False):
+    """-> (paths, hdu_index) in collection order.  plain: one file per input, NaN for undefined (what the tile-multi-tan
+    CLI can express); otherwise the variant's packaging and the case's encoding of undefined."""
+    from astropy.io import fits
+    n = len(disps)
+    pack = "files" if plain else var.get("pack", "files")
+    in_mef = [pack == "mef" or (pack == "mixed" and i % 2 == 0) for i in range(n)]
+    ext = {}
+    members = [i for i in range(n) if in_mef[i]]
+    for j, i in enumerate(reversed(members)):                 # HDU order is not the collection order
+        ext[i] = j + 1
+    hdus = {}
+    paths, idx = [], []
+    for i, (k, f) in enumerate(zip(var["perm"], rec["files"])):
+        data = disps[i] if plain else encode_blank(case, disps[i], case["subs"][k], i)
+        hdu = make_hdu(data, f["par"], f["c1"], f["c2"], case, not in_mef[i])
+        if in_mef[i]:
+            hdus[ext[i]] = hdu
+            paths.append(os.path.join(wd, "mef.fits"))
+            idx.append(ext[i])
+        else:
+            p = os.path.join(wd, "%s%d.fits" % ("plain" if plain else "in", i))
+            hdu.writeto(p, overwrite=True)
+            paths.append(p)
+            idx.append(0)
+    if hdus:
+        fits.HDUList([fits.PrimaryHDU()] + [hdus[j] for j in sorted(hdus)]).writeto(os.path.join(wd, "mef.fits"), overwrite=True)
+    if pack == "files":
+        idx = None                                            # let the loader find the image HDU
+    return paths, idx
+
+
+def make_hdu(disp, par, c1, c2, case, primary):
     """disp: the image in display orientation (row 0 at the top); c1, c2: doubled CRPIX as in the header."""
     import numpy as np
     from astropy.io import fits
@@ -343,7 +403,8 @@ def write_fits(path, disp, par, c1, c2, case):
     else:
         w.wcs.cd = [[-c * s, -sy * k * s], [-k * s, sy * c * s]]
     w.wcs.crpix = [c1 / 2.0, c2 / 2.0]
-    fits.PrimaryHDU(data=np.ascontiguousarray(data), header=w.to_header()).writeto(path, overwrite=True)
+    cls = fits.PrimaryHDU if primary else fits.ImageHDU
+    return cls(data=np.ascontiguousarray(data), header=w.to_header())
 
 
 def expected_mosaic(exp, disps, dtype):
@@ -566,7 +627,7 @@ SIM_POLICIES = {"random": simrun.pol_random, "stall-write": pol_stall_write, "re
                 "starve-feeder": simrun.pol_starve_feeder, "workers-last": simrun.pol_workers_last, "flag-race": simrun.pol_flag_race}
 
 
-def run_multi(paths, out, fmt, mode, parallel=1, policy=None, seed=0, stale_lock=None):
+def run_multi(paths, out, fmt, mode, parallel=1, policy=None, seed=0, stale_lock=None, hdu_index=None, blankval=None):
     """One run of the real MultiTanProcessor.  -> dict(fields, lev, status, note)"""
     from toasty import multi_tan, collection, pyramid, builder
     from toasty.pyramid import Pos
@@ -578,9 +639,30 @@ def run_multi(paths, out, fmt, mode, parallel=1, policy=None, seed=0, stale_lock
             cli.entrypoint(["tile-multi-tan", "--outdir", out, "--parallelism", "1"] + list(paths))
         r["wtml"] = os.path.join(out, "index_rel.wtml")
         return r
+    if mode == "cli-view":
+        # `toasty view --tile-only`: CollectionLoader options (--hdu-index list, --blankval) -> FitsTiler -> MultiTanProcessor
+        # (+ cascade); the pyramid lands next to the first input
+        from toasty import cli
+        import io
+        argv = ["view", "--tile-only", "--tiling-method", "tan", "--parallelism", "1"]
+        if hdu_index is not None:
+            argv.append("--hdu-index=" + ",".join(str(i) for i in hdu_index))
+        if blankval is not None:
+            argv.append("--blankval=" + repr(blankval))
+        with simrun.quiet(), contextlib.redirect_stderr(io.StringIO()):
+            cli.entrypoint(argv + list(paths))
+        first = paths[0].split(".gz")[0]
+        r["outdir"] = first[:first.rfind(".")] + "_tiled"
+        r["wtml"] = os.path.join(r["outdir"], "index_rel.wtml")
+        return r
     pio = pyramid.PyramidIO(out, default_format=fmt)
     bld = builder.Builder(pio)
-    proc = multi_tan.MultiTanProcessor(collection.SimpleFitsCollection(paths))
+    kw = {}
+    if hdu_index is not None:
+        kw["hdu_index"] = list(hdu_index)
+    if blankval is not None:
+        kw["blankval"] = blankval
+    proc = multi_tan.MultiTanProcessor(collection.SimpleFitsCollection(paths, **kw))
     proc.compute_global_pixelization(bld)
     r["fields"] = fields_of(bld.imgset)
     r["lev"] = int(bld.imgset.tile_levels)
@@ -659,13 +741,10 @@ def replay_group(args):
     rep = {"case": {k: case[k] for k in case if k != "subs"}, "subs": case["subs"], "order": var["perm"], "parities": var["pars"]}
     truth = truth_array(case)
     rec = file_records(case, var["perm"], var["pars"])
-    disps, paths = [], []
-    for i, (k, f) in enumerate(zip(var["perm"], rec["files"])):
-        d = display_array(case, truth, k)
-        disps.append(d)
-        p = os.path.join(wd, "in%d.fits" % i)
-        write_fits(p, d, f["par"], f["c1"], f["c2"], case)
-        paths.append(p)
+    rep["pack"], rep["blank"] = var.get("pack", "files"), case.get("blank")
+    disps = [display_array(case, truth, k) for k in var["perm"]]
+    paths, hdu_index = write_inputs(wd, case, var, rec, disps)
+    plain_paths = None
     # ---- harness sanity against TLC's placement (the spec must recover the offsets the files were written for)
     for i, k in enumerate(var["perm"]):
         s = case["subs"][k]
@@ -720,14 +799,17 @@ def replay_group(args):
     # ---- the multi-image runs
     for ri, run in enumerate(runs):
         fmt, mode = run["fmt"], run["mode"]
-        mkey = {"serial": "serial", "sim": "scheduled", "procs": "processes", "cli": "cli"}[mode]
+        mkey = {"serial": "serial", "sim": "scheduled", "procs": "processes", "cli": "cli", "cli-view": "cli"}[mode]
         key = "C09:multi_tan:%s" % mkey
         rrep = dict(rep, run=dict(run))
         out = os.path.join(wd, "out-%d" % ri)
         stale = untouched[0] if (run.get("stale") and untouched) else None
         info["nrun"] += 1
         try:
-            r = run_multi(paths, out, fmt, mode, run.get("parallel", 1), run.get("policy"), run.get("seed", 0), stale)
+            if mode == "cli" and plain_paths is None:
+                plain_paths, _ = write_inputs(wd, case, var, rec, disps, plain=True)
+            r = run_multi(plain_paths if mode == "cli" else paths, out, fmt, mode, run.get("parallel", 1), run.get("policy"), run.get("seed", 0), stale,
+                          hdu_index=hdu_index, blankval=case.get("blank"))
         except Exception as e:  # noqa
             import traceback
             res.append(("V", key + ":raised", "MultiTanProcessor (%s, %s tiles) raised %r on a valid collection (%s)" % (mkey, fmt, e, traceback.format_exc()[-400:]), rrep))
@@ -743,12 +825,14 @@ def replay_group(args):
             info["gates"] = r["gates"]
             if r.get("alive"):
                 res.append(("V", key + ":workers-alive", "tile() returned while workers %s were running" % (r["alive"],), rrep))
-        if mode == "cli":
+        if mode in ("cli", "cli-view"):
             fields = wtml_fields(r["wtml"])
             lev = int(fields["tile_levels"])
         else:
             fields, lev = r["fields"], r["lev"]
-        got, odd, locks = read_tiles(out, fmt, lev)
+        got, odd, locks = read_tiles(r.get("outdir", out), fmt, lev)
+        if mode == "cli-view":
+            odd = []                                            # `view` also builds the shallower levels
         # (1) tiles against TLC's expectation and against the single-image run
         if mode in ("sim", "procs") and not case["agree"]:
             ok = False
@@ -967,7 +1051,7 @@ def run(ctx):
     # ---- run plan per group
     pols = list(SIM_POLICIES)
     tasks = []
-    nsim = nprocs = 0
+    nsim = nprocs = nview = 0
     seen_case = set()
     for gi, ((ci, var), exp) in enumerate(zip(groups, exps)):
         case = cases[ci]
@@ -989,6 +1073,9 @@ def run(ctx):
             nprocs += 1
         if first and case["tag"] == "tall":
             runs.append(dict(fmt="fits", mode="cli"))
+        if var["pack"] in ("mef", "mixed") and case["blank"] is not None and nview < (2 if quick else 12) and case["W"] * case["H"] < 400000:
+            runs.append(dict(fmt="fits", mode="cli-view"))
+            nview += 1
         tasks.append((case, var, exp, runs, ctx.scratch))
     # long groups first
     order = sorted(range(len(tasks)), key=lambda i: -sum({"procs": 40, "sim": 6, "cli": 3}.get(r["mode"], 1) for r in tasks[i][3]))
@@ -1019,7 +1106,7 @@ def run(ctx):
         for ri, run in enumerate(runs):
             if shared:
                 ctx.distinct((ci, tuple(var["perm"]), tuple(var["pars"]), run["fmt"], run["mode"], run.get("policy"), run.get("seed")))
-            if ri in info["digests"] and run["mode"] != "cli":
+            if ri in info["digests"] and not run["mode"].startswith("cli"):
                 by_case.setdefault(ci, []).append((info["digests"][ri], var, run))
         if info["gates"] is not None:
             gates_seen = info["gates"] if gates_seen is None else sorted(set(gates_seen) | set(info["gates"]))
@@ -1036,7 +1123,7 @@ def run(ctx):
         ctx.drift("update_image no longer passes through SoftFileLock._acquire / PyramidIO.read_image / write_image (scheduling points seen: %s): "
                   "the scheduled runs interleave less finely" % (gates_seen,))
     ctx.note("runs", {"groups": len(tasks), "serial": sum(1 for t in tasks for r in t[3] if r["mode"] == "serial"), "scheduled": nsim,
-                      "processes": nprocs, "cli": sum(1 for t in tasks for r in t[3] if r["mode"] == "cli"),
+                      "processes": nprocs, "cli": sum(1 for t in tasks for r in t[3] if r["mode"].startswith("cli")),
                       "distinct_schedules": len({s for i in results for s in results[i][1]["sched"]})})
     for i in (0, len(tasks) // 2):
         case, var, exp, runs, _s = tasks[i]
